@@ -245,9 +245,8 @@ fn perm_invalid(s: &str) -> Option<&'static str> {
     if t.is_empty() {
         return Some("empty mode");
     }
-    if t.starts_with('+') {
-        return None; // historical +MODE: not judged
-    }
+    // (the historical "+OCTAL" spelling is gone from GNU find: "+7" is digits mixed with an operator;
+    // "+r" is an ordinary who-less symbolic clause)
     if t.chars().any(|c| c.is_ascii_digit()) {
         if !t.chars().all(|c| c.is_ascii_digit()) {
             return Some("digits mixed with symbolic mode characters");
